@@ -20,8 +20,8 @@
    token recognition error there, and whether that matters depends on whether the PARSER ever asks
    for a token at or beyond that point (it reads lazily) — Lang/Reader.v decides.
 
-   Model domain: ASCII texts; strings containing a backslash or a doubled quote are lexed but mark
-   the result `lx_unsup` (their value after the listener's trimming is outside the value model). *)
+   Model domain: ASCII texts.  A string token keeps the raw text between its outer quotes: the listener does not
+   unescape anything, it only trims quote characters from both ends (Lang/Reader.v `trimq`). *)
 From Coq Require Import Ascii String List Arith Bool ZArith.
 From GV Require Import Lang.Syntax.
 Import ListNotations.
@@ -203,7 +203,7 @@ Definition next_step (cs : list ascii) : step :=
     else if is_digit c || ceq c 46 then number_step cs
     else if ceq c 34 then
       match string_body (S (length r)) r with
-      | Some (n, esc) => StTok (LxStr (str_of (firstn (n - 1) r))) (S n) esc
+      | Some (n, _) => StTok (LxStr (str_of (firstn (n - 1) r))) (S n) false
       | None => StBad
       end
     else if ceq c 64 then
